@@ -5958,7 +5958,11 @@ class FlowIRConcrete(object):
         need_fully_resolved_flowir = (raw is False and inject_missing_fields
                                       and include_default and is_primitive is False)
         try:
-            cache_label = 'component:%s:stage%s:%s' % (platform, comp_id[0], comp_id[1])
+            # VV: A platform name may be ANY string (e.g. `q:stage0:a`): spell every `:` and `%` of it out so that two
+            #     different (platform, stage, name) triples never map to the same label; the invalidation pattern
+            #     `component:.*:stage<i>:<name>` places no constraint on the platform part
+            cache_label = 'component:%s:stage%s:%s' % (
+                str(platform).replace('%', '%25').replace(':', '%3A'), comp_id[0], comp_id[1])
         except Exception as e:
             flowirLogger.critical('Failed to create component-cache label: %s-%s-%s' % (
                 platform, comp_id[0], comp_id[1]))
